@@ -20,7 +20,7 @@ from ..sym import Explorer, N, is_const, show, walk
 from ..table import Table, Undecided, enum_variants
 from ..wrules import model, w1, w3, w5_repr
 
-TECHNIQUE = "static analysis: binrw layout rules vs reference (W1/W3/W5); dispatch table of the cell decoder extracted from the MIR switch (variant -> read type, constructed variant, bit); expression provenance of seeks; name tables and templates; separator / line-ending obligations on the root-list reader"
+TECHNIQUE = "static analysis: binrw layout rules vs reference (W1/W3/W5); dispatch table of the cell decoder extracted from the MIR switch (variant -> read type, constructed variant, bit); expression provenance of seeks; name tables and templates; separator / line-ending obligations on the root-list reader; exit-edge classification of the row scan loop"
 TRUSTED = ["pv/wire.py binrw model", "spec/layouts.txt (Lumina Excel structs)", "reference cell widths embedded in this rule (Lumina ExcelColumnDataType)", "rustc nightly MIR"]
 
 REF_CODES = {"String": 0x0, "Bool": 0x1, "Int8": 0x2, "UInt8": 0x3, "Int16": 0x4, "UInt16": 0x5, "Int32": 0x6, "UInt32": 0x7, "Float32": 0x9, "Int64": 0xA, "UInt64": 0xB,
